@@ -116,6 +116,25 @@ fn part_a(rep: &Report) {
             }
         }
     });
+    // every well-known atom name (judged as a string) through the header encoder: as a new cache entry and as a value
+    for name in crate::universe::atom_names(false) {
+        if name.chars().count() > 255 || name.is_empty() { continue; }
+        rep.add("evaluations", 1);
+        let t = OwnedTerm::Tuple(vec![int(2), OwnedTerm::Atom(erltf::types::Atom::new(name.as_str())), OwnedTerm::List(vec![OwnedTerm::Atom(erltf::types::Atom::new(name.as_str()))])]);
+        let want = vcore::refval::RefVal::Tuple(vec![vcore::refval::RefVal::int(2), vcore::refval::RefVal::atom(&name), vcore::refval::RefVal::list(vec![vcore::refval::RefVal::atom(&name)], vcore::refval::RefVal::Nil)]);
+        match erltf::encode_with_dist_header(&t) {
+            Ok(bytes) => {
+                let mut rx = RxCache::default();
+                let read = read_dist_header_msg(&bytes, &mut rx).ok().map(|m| m.control);
+                let mut ac = AtomCache::new();
+                let own = erltf::decode_with_atom_cache(&bytes, &mut ac).ok().map(|(c, _)| denote(&c));
+                if !read.as_ref().map(|r| exact_eq(r, &want)).unwrap_or(false) || !own.as_ref().map(|r| exact_eq(r, &want)).unwrap_or(false) {
+                    rep.violation("an atom is carried under another name by the distribution header", json!({"name": name.chars().take(40).collect::<String>(), "independent_reader": read.map(|r| r.short()), "own_decoder": own.map(|r| r.short())}));
+                }
+            }
+            Err(e) => rep.violation("dist-header encoding fails", json!({"atom": name.chars().take(40).collect::<String>(), "error": e.to_string()})),
+        }
+    }
     rep.sample(json!({"part": "a", "case": "k=3 atoms, one of 300 bytes, atoms as pid/ref node names and map keys"}));
 }
 
